@@ -6,6 +6,8 @@
 //	qinq     qinq.Mapper           Register / Unregister / UnregisterSubscriber
 //	pppoe    pppoe.SessionManager  Create / Remove / Touch / Sleep / CleanupExpired, two sessions per MAC, id counter preset to 65534 (wrap)
 //	index    state.Store (sessions, leases, subscribers), subscriber.Manager, allocator.MemoryAllocationStore: create / update(changing MAC or IP) / delete
+//	sched:*  Engine B (verif/sched): 2-3 threads on colliding keys of the four lock-protected tables above, every mutex
+//	         operation a scheduling point, all schedules with <= 2 (thorough 3) preemptions, same oracle at the end
 //	circuit  ebpf.MakeCircuitIDKey / HashCircuitID over a bounded-exhaustive family of circuit-ids (Engine D)
 //
 // Oracle after every operation: each key in use identifies at most one subscriber;
@@ -72,6 +74,7 @@ func TestCheck(t *testing.T) {
 	if run.WantPart("circuit") {
 		runCircuit(run)
 	}
+	runSched(run) // Engine B: interleavings on colliding keys (sched_test.go)
 	os.Exit(run.Finish())
 }
 
@@ -83,6 +86,9 @@ func replay(run *report.Run, ms []*explore.Model) int {
 	}
 	if v.Part == "circuit" {
 		return replayCircuit(v)
+	}
+	if strings.HasPrefix(v.Part, "sched:") {
+		return replaySched(v)
 	}
 	name := v.Part
 	if i := strings.Index(name, "["); i >= 0 {
